@@ -225,6 +225,22 @@ Theorem c01_reports_in_stream_bounded : forall c ls s i next ts lo hi,
 Proof. exact reports_in_stream_bounded. Qed.
 Print Assumptions c01_reports_in_stream_bounded.
 
+(* The writer thread has ended without a shutdown request (all queue handles dropped after the join handle was
+   forgotten), nothing was displaced and the final drain was not cut short: every appended entry was handed to the
+   stream.  `exit_complete_b` is that statement on a recorded schedule and its event log; it is part of the `spec`
+   comparison and holds of every run of the model. *)
+From MV Require Import Queue.ExitComplete.
+Theorem c01_delivered_when_writer_ended_without_shutdown : forall c s, reachable c s ->
+  has_drop (out (gh s)) = true -> shutdown (sh s) = false -> sdhit (gh s) = false ->
+  forall e, In e (pushed (gh s)) -> In e (nexts (out (gh s))) \/ In e (displaced (removed (gh s))).
+Proof. exact dropped_without_shutdown_complete. Qed.
+Print Assumptions c01_delivered_when_writer_ended_without_shutdown.
+
+Theorem c01_exit_complete_holds_of_every_run : forall c ls s,
+  run c init ls = Some s -> exit_complete_b ls (out (gh s)) = true.
+Proof. exact exit_complete_sound. Qed.
+Print Assumptions c01_exit_complete_holds_of_every_run.
+
 Example c01_example_rate_burst :
   rate_obs NS 0 0 [OSet (3600 * NS); OFail; OFail; OOk; OFail; OSet (3600 * NS + 999999999); OFail;
                    OSet (3601 * NS); OFail; OFail]
